@@ -374,6 +374,37 @@ func init() {
 func c03iterScoping(rng *rand.Rand) (src, want string) {
 	S, T, U := 1+rng.Intn(4), 5+rng.Intn(4), 100+rng.Intn(50)
 	lim := 6 + rng.Intn(6)
+	switch rng.Intn(4) {
+	case 0:
+		// every step started by recur is a fresh frame: a local assigned by one step is not what the next step reads
+		// through the same name (it reads the variable of the scope where the literal was written)
+		var steps []string
+		for i := 0; i < lim; i += S {
+			steps = append(steps, fmt.Sprintf("[%d, %d, %d]", U, i, U+1))
+		}
+		names := [][2]string{{"lim", "other"}, {"acc", "base"}, {"x", "y"}}[rng.Intn(3)]
+		a, b := names[0], names[1]
+		body := fmt.Sprintf("seen := %s; %s := n; also := %s; %s += n; yield [seen, n, also] if n < %d; recur(n + %d)", a, a, b, b, lim, S)
+		forms := []string{
+			"g := <{|n| " + body + "}>\nr := g.new(0).A",
+			"g := <{|n| " + body + "}>\nr := {|" + a + "| g.new(0).A}(7)",
+			"mk := {|| <{|n| " + body + "}>}\nr := mk().new(0)@{|e| e}",
+			"g := <{|n| " + body + "}>\nit := g.new(0)\nr := []\n" + strings.Repeat("r := [*r, it.next]\n", len(steps)),
+		}
+		src = fmt.Sprintf("%s := %d\n%s := %d\n%s\n[r, %s, %s]", a, U, b, U+1, forms[rng.Intn(len(forms))], a, b)
+		want = fmt.Sprintf("[[%s], %d, %d]", strings.Join(steps, ", "), U, U+1)
+		return
+	case 1:
+		// \N, \name and parameters reflect only the arguments given to that recur
+		extra := rng.Intn(90)
+		forms := []struct{ src, want string }{
+			{fmt.Sprintf("it := <{yield [\\1, \\2, \\k] if \\1 < 5; recur(\\1 + 1)}>.new(0, %d, k: %d)\n[it.next, it.try.{|i| i.next}.or('failed)]", extra, extra+1), fmt.Sprintf("[[0, %d, %d], \"failed\"]", extra, extra+1)},
+			{fmt.Sprintf("it := <{|a, b, k: 'dflt| yield [a, b, k] if a < 3; recur(a + 1)}>.new(0, %d, k: %d)\n[it.next, it.next, it.next]", extra, extra+1), fmt.Sprintf("[[0, %d, %d], [1, nil, \"dflt\"], [2, nil, \"dflt\"]]", extra, extra+1)},
+			{fmt.Sprintf("it := <{|a, b| yield [a, b, \\_.keys] if a < 3; recur(a + 1, k: b)}>.new(0, %d, %d, z: 1)\n[it.next, it.next]", extra, extra+1), fmt.Sprintf("[[0, %d, [\"z\"]], [1, nil, [\"k\"]]]", extra)},
+		}
+		f := forms[rng.Intn(len(forms))]
+		return f.src, f.want
+	}
 	var seq []string
 	for i := 0; i < lim; i += S {
 		seq = append(seq, fmt.Sprint(i))
